@@ -913,6 +913,10 @@ enum FruitType {
   FRUIT_TYPE_APPLE = 1 [(tableau.evalue).name = "Apple"];
   FRUIT_TYPE_PEAR = 2 [(tableau.evalue).name = "Pear"];
 }
+message Label {
+  string name = 1 [(tableau.field).name = "Name"];
+  string text = 2 [(tableau.field).name = "Text"];
+}
 `
 
 // docBase: the predefined enum comes from an imported proto file
